@@ -218,13 +218,22 @@ def check_ngram(ctx, c):
                 viol("mask/mask-index-not-last", "mask column index %d, expected %d" % (lab[(mask,)], len(keep)))
                 return
         ctx.count("ngram_position_checks")
-        for i, s in enumerate(seqs):
-            cn = collections.Counter(tuple(s[k:k + n]) for k in range(len(s) - n + 1))
-            for g, j in lab.items():
-                if M[i, j] != cn.get(g, 0):
-                    viol("%s/count-differs-from-%s-sequence" % (mode, "deleted" if mode == "delete" else "position-preserving"),
-                         "doc %d n-gram %r: %s, expected %d" % (i, g, M[i, j], cn.get(g, 0)), {"sequence": s})
-                    return
+        newdocs = [d[::-1] + ["zz_unseen"] + d[:2] for d in docs if d][:3]
+        newseqs = [[t for t in d if t in keep] for d in newdocs] if mode == "delete" else [[t if t in keep else mask for t in d] for d in newdocs]
+        try:
+            Mt = est.transform(docs).toarray()
+            Mn = est.transform(newdocs).toarray() if newdocs else np.zeros((0, len(lab)))
+        except Exception as e:
+            viol("%s/transform-raises/%s" % (mode, type(e).__name__), "transform raised %s: %s" % (type(e).__name__, str(e)[:160]))
+            return
+        for which, MM, SS in (("fit_transform", M, seqs), ("transform-of-training", Mt, seqs), ("transform-of-new-documents", Mn, newseqs)):
+            for i, s in enumerate(SS):
+                cn = collections.Counter(tuple(s[k:k + n]) for k in range(len(s) - n + 1))
+                for g, j in lab.items():
+                    if MM[i, j] != cn.get(g, 0):
+                        viol("%s/%s-count-differs-from-%s-sequence" % (mode, which, "deleted" if mode == "delete" else "position-preserving"),
+                             "%s doc %d n-gram %r: %s, expected %d" % (which, i, g, MM[i, j], cn.get(g, 0)), {"sequence": s})
+                        return
     ctx.ok(sg, True)
 
 
